@@ -32,10 +32,38 @@ type Audit struct {
 	Note *string
 }
 
+// Money is written as text through a VALUE receiver.
+type Money struct{ Units int64 }
+
+func (m Money) MarshalText() ([]byte, error) { return []byte(fmt.Sprintf("%d", m.Units)), nil }
+func (m *Money) UnmarshalText(b []byte) error {
+	_, err := fmt.Sscanf(string(b), "%d", &m.Units)
+	return err
+}
+
+// Ratio is written as text through a POINTER receiver (like *big.Float, *big.Rat).
+type Ratio struct{ N, D int64 }
+
+func (r *Ratio) MarshalText() ([]byte, error) { return []byte(fmt.Sprintf("%d/%d", r.N, r.D)), nil }
+func (r *Ratio) UnmarshalText(b []byte) error {
+	_, err := fmt.Sscanf(string(b), "%d/%d", &r.N, &r.D)
+	return err
+}
+
 `
+
+// fields of the text-marshalling helper types (outside the Lean fragment, like the embedded helpers)
+var c16TextFields = []string{
+	"Price Money `json:\"price\"`",
+	"PriceP *Money `json:\"price_p,omitempty\"`",
+	"Share *Ratio `json:\"share\"`",
+	"Shares []*Ratio `json:\"shares\"`",
+	"ByName map[string]*Ratio `json:\"by_name\"`",
+}
 
 type gty struct {
 	Embeds []string `json:"-"` // embedded helper types (timestamps, *Audit): outside the Lean fragment
+	Extra  []string `json:"-"` // further field declarations written verbatim (text-marshalling helper types): outside the Lean fragment
 	K      string   `json:"k"` // basic | ptr | slice | arr | map | strct | time | bytes | iface | named
 	Kind   string   `json:"kind,omitempty"`
 	GoName string   `json:"-"` // spelling of a basic kind (int32, uint8, float32, ...)
@@ -130,6 +158,9 @@ func (t *gty) src() string {
 		var b strings.Builder
 		b.WriteString("struct {\n")
 		for _, e := range t.Embeds {
+			fmt.Fprintf(&b, "\t%s\n", e)
+		}
+		for _, e := range t.Extra {
 			fmt.Fprintf(&b, "\t%s\n", e)
 		}
 		for _, f := range t.Fields {
@@ -363,7 +394,7 @@ func CheckC16(run *ev.Run) {
 		models := []string{}
 		types := map[string]*gty{}
 		var src strings.Builder
-		src.WriteString("// Package types holds generated model types.\npackage types\n\nimport \"time\"\n\nvar _ = time.Now\n\n")
+		src.WriteString("// Package types holds generated model types.\npackage types\n\nimport (\n\t\"fmt\"\n\t\"time\"\n)\n\nvar _ = time.Now\n\n")
 		src.WriteString(c16Embeds)
 		for i := 0; i < 6; i++ {
 			name := fmt.Sprintf("Model%c", 'A'+i)
@@ -375,6 +406,8 @@ func CheckC16(run *ev.Run) {
 				t.Embeds = []string{"*timestamps", "Audit"}
 			case 3:
 				t.Embeds = []string{"*Audit"}
+			case 4:
+				t.Extra = c16TextFields
 			}
 			types[name] = t
 			fmt.Fprintf(&src, "// %s is a generated model.\n//\n// swagger:model %s\ntype %s %s\n\n", name, name, name, t.src())
@@ -426,7 +459,7 @@ func CheckC16(run *ev.Run) {
 		// (1) schema vs the Lean model
 		for _, name := range models {
 			t := types[name]
-			if len(t.Embeds) > 0 {
+			if len(t.Embeds) > 0 || len(t.Extra) > 0 {
 				st["schema-comparison-skipped(embedded)"]++
 				continue
 			}
